@@ -528,7 +528,7 @@ fn features(evs: &[Value], st: &mut Stats) -> bool {
 pub fn gen(out: &mut Out, _sub: &str) {
     let mut rng = Rng::new(out.seed ^ 0x0101);
     let mut st = Stats::default();
-    let n = out.size(420, 6000);
+    let n = out.size(400, 6000);
     for i in 0..n {
         let mut r = rng.fork();
         let mut k = Knobs::default();
